@@ -32,17 +32,30 @@ def main():
     ap.add_argument('--baseline', action='store_true')
     ap.add_argument('--demo', default=None)
     ap.add_argument('--json', default=None)
+    ap.add_argument('--base', default=None, help='commit of /repo the patch was written against: the patch is applied there and the later commits of /repo are cherry-picked on top')
+    ap.add_argument('--keep', action='store_true', help='keep the worktree when the cherry-pick conflicts (to resolve by hand)')
     a = ap.parse_args()
     props = a.props.split(',') if a.props else ALL
     wt = tempfile.mkdtemp(prefix='mut_', dir='/tmp')
     os.rmdir(wt)
-    r = sh(['git', '-C', '/repo', 'worktree', 'add', '-q', '--detach', wt, 'HEAD'])
+    r = sh(['git', '-C', '/repo', 'worktree', 'add', '-q', '--detach', wt, a.base or 'HEAD'])
     if r.returncode:
         print('worktree failed', r.stdout.decode())
         return 3
     out = {'patch': a.patch, 'results': {}}
+    keep = False
     try:
         r = sh(['git', '-C', wt, 'apply', os.path.abspath(a.patch)])
+        if a.base and not r.returncode:
+            sh(['git', '-C', wt, 'add', '-A'])
+            sh(['git', '-C', wt, '-c', 'user.name=x', '-c', 'user.email=x@x', 'commit', '-qm', 'scratch: patch under test'])
+            rc = sh(['git', '-C', wt, '-c', 'user.name=x', '-c', 'user.email=x@x', 'cherry-pick', '%s..%s' % (a.base, sh(['git', '-C', '/repo', 'rev-parse', 'HEAD']).stdout.decode().strip())])
+            if rc.returncode:
+                print('CHERRY-PICK OF LATER FIXES CONFLICTS:', rc.stdout.decode()[-600:])
+                keep = a.keep
+                if keep:
+                    print('worktree kept at', wt)
+                return 3
         if r.returncode:
             # the patch was written against an earlier commit of /repo: try a 3-way merge
             r3 = sh(['git', '-C', wt, 'apply', '--3way', os.path.abspath(a.patch)])
@@ -85,7 +98,8 @@ def main():
             json.dump(out, open(a.json, 'w'), indent=1)
         return 0 if caught else 1
     finally:
-        sh(['git', '-C', '/repo', 'worktree', 'remove', '--force', wt])
+        if not keep:
+            sh(['git', '-C', '/repo', 'worktree', 'remove', '--force', wt])
 
 
 if __name__ == '__main__':
